@@ -202,7 +202,12 @@ pub fn run_bin(args: &[&str], stdin: &[u8], envs: &[(&str, &str)], timeout_s: u6
 
 /// As run_bin; `stdout_to` redirects the child's standard output to a path (e.g. /dev/full) instead of capturing it.
 pub fn run_bin_ext(args: &[&str], stdin: &[u8], envs: &[(&str, &str)], timeout_s: u64, stdout_to: Option<&str>) -> BinOut {
-    let mut cmd = Command::new(bin_path());
+    run_prog(&bin_path(), args, stdin, envs, timeout_s, stdout_to)
+}
+
+/// Run an arbitrary executable (e.g. a script with a #! line naming the p2sh binary).
+pub fn run_prog(prog: &str, args: &[&str], stdin: &[u8], envs: &[(&str, &str)], timeout_s: u64, stdout_to: Option<&str>) -> BinOut {
+    let mut cmd = Command::new(prog);
     cmd.args(args).env("RUST_BACKTRACE", "0").stdin(Stdio::piped()).stderr(Stdio::piped());
     match stdout_to {
         Some(p) => {
@@ -215,7 +220,20 @@ pub fn run_bin_ext(args: &[&str], stdin: &[u8], envs: &[(&str, &str)], timeout_s
     for (k, v) in envs {
         cmd.env(k, v);
     }
-    let mut child = cmd.spawn().expect("cannot spawn p2sh binary (P2SH_BIN)");
+    let mut child = {
+        // a script file that was just written may still be "text file busy" for a moment on exec
+        let mut tries = 0;
+        loop {
+            match cmd.spawn() {
+                Ok(c) => break c,
+                Err(e) if e.raw_os_error() == Some(26) && tries < 50 => {
+                    tries += 1;
+                    std::thread::sleep(Duration::from_millis(5));
+                }
+                Err(e) => panic!("cannot spawn {} (P2SH_BIN): {}", prog, e),
+            }
+        }
+    };
     let mut si = child.stdin.take().unwrap();
     let data = stdin.to_vec();
     let t_in = std::thread::spawn(move || {
